@@ -341,7 +341,7 @@ impl<'a> GExec<'a> {
             }
         };
         self.sim.set_time(new);
-        ctx.sim_seconds += new - now;
+        ctx.sim_seconds = ctx.sim_seconds.saturating_add(new - now);
         let seq = self.sim.seq();
         let room = (self.sim.start_seq + MAX_SEQ_ADVANCE).saturating_sub(seq);
         let d = dseq.min(room);
@@ -850,7 +850,7 @@ impl<'a> GExec<'a> {
             // 3. a fresh well-formed rotation after waiting out the delay
             let mm = self.gws[g].m.clone();
             let t = mm.last_rotation.saturating_add(mm.min_delay).max(self.sim.now());
-            ctx.sim_seconds += t - self.sim.now();
+            ctx.sim_seconds = ctx.sim_seconds.saturating_add(t - self.sim.now());
             self.sim.set_time(t);
             let mut fresh = self.cfg.pool[lp].clone();
             fresh.nonce = keccak(&[b"tail-nonce".as_ref(), &[g as u8], &mm.epoch.to_le_bytes()].concat());
@@ -858,7 +858,14 @@ impl<'a> GExec<'a> {
                 continue;
             }
             ctx.count("tail.fresh_rotation");
-            let ok = self.do_rotate(ctx, g as u8, &Cand::Inline(fresh), &spec, false, AuthVar::Nobody, None);
+            // a delay that cannot be waited out (last + delay overflows the clock) leaves
+            // only the operator's bypass; that is a configuration, not a wedged state
+            let waitable = mm.last_rotation.checked_add(mm.min_delay).is_some();
+            let ok = if waitable {
+                self.do_rotate(ctx, g as u8, &Cand::Inline(fresh), &spec, false, AuthVar::Nobody, None)
+            } else {
+                self.do_rotate(ctx, g as u8, &Cand::Inline(fresh), &spec, true, AuthVar::Right, None)
+            };
             if ctx.stopped() {
                 return;
             }
